@@ -67,6 +67,9 @@ def dx_case(draw, big=False):
         trailing_space=draw(st.booleans()),
         atoms=[list(a) for a in atoms], cli=draw(st.integers(0, 7)) == 0,
         whitespace_pqr=draw(st.booleans()),
+        # non-finite grid values (APBS writes nan / inf where the potential is undefined): value tokens
+        nonfinite=[[draw(st.integers(0, 10**6)), draw(st.sampled_from(["nan", "inf", "-inf", "NaN", "Infinity", "-nan"]))]
+                   for _ in range(draw(st.sampled_from([0, 0, 0, 1, 3])))],
     )  # fmt: skip
 
 
@@ -86,8 +89,11 @@ def dx_text(case):
     vals = case["vals"]
     k = case["per_line"]
     sp = " " if case["trailing_space"] else ""
+    toks = ["%e" % v for v in vals]
+    for pos, tok in case.get("nonfinite", []):
+        toks[pos % len(toks)] = tok
     for i in range(0, len(vals), k):
-        s.append(" ".join("%e" % v for v in vals[i : i + k]) + sp)
+        s.append(" ".join(toks[i : i + k]) + sp)
     if case["trailer"]:
         s += [
             'attribute "dep" string "positions"',
@@ -159,6 +165,10 @@ def _convert(case, dx, pqr):
 
 def _close6(c, v):
     """c equals v to 6 significant digits (value printed as d.dddddE+xx)."""
+    if math.isnan(v) or math.isnan(c):
+        return math.isnan(v) and math.isnan(c)
+    if math.isinf(v) or math.isinf(c):
+        return c == v
     if v == 0.0:
         return c == 0.0
     e = math.floor(math.log10(abs(v)))
@@ -172,6 +182,8 @@ def check_dx(case):
     # what the DX text itself says (APBS prints %e): parse with plain float()
     dxvals = [float("%e" % v) for v in case["vals"]]
     n = len(dxvals)
+    for pos, tok in case.get("nonfinite", []):
+        dxvals[pos % n] = float(tok)
     try:
         cube = _convert(case, dx, pqr)
     except Exception as e:  # noqa: BLE001
@@ -209,8 +221,9 @@ def check_dx(case):
         for i, (cv, v) in enumerate(zip(c["values"], dxvals)):
             if not _close6(cv, v):
                 # reordered or altered?
-                sig = "C18:values:order" if sorted(c["values"]) == sorted(
-                    float(f"{x:.5E}") for x in dxvals) else "C18:values:changed"  # fmt: skip
+                fin = [x for x in dxvals if math.isfinite(x)]
+                sig = "C18:values:order" if sorted(x for x in c["values"] if math.isfinite(x)) == sorted(
+                    float(f"{x:.5E}") for x in fin) else "C18:values:changed"  # fmt: skip
                 res.bad(sig, f"value #{i}: cube {cv!r} vs DX {v!r} (dims {case['dims']})")
                 break
     if any(k > 6 for k in c["per_line"]):
@@ -218,7 +231,7 @@ def check_dx(case):
     res.nontrivial = n % 6 != 0 or 1 in case["dims"]
     res.label(f"n%6={n % 6}", f"per_line={case['per_line']}", "cli" if case["cli"] else "func",
               "dim1" if 1 in case["dims"] else "nodim1", "big" if n >= 1000 else "small",
-              f"natoms={min(len(case['atoms']), 3)}+")  # fmt: skip
+              f"natoms={min(len(case['atoms']), 3)}+", "non-finite-values" if case.get("nonfinite") else "finite")  # fmt: skip
     return res
 
 
